@@ -191,6 +191,10 @@ def judge(family, case, rec):
                                                    for i in range(max(0, case["n_seeds"] - 1))]
     outs = {}
     held = []
+    if case["form"] == 3:
+        # seeds beyond 61 / 64 bits are seeds like any other (default_rng takes arbitrary non-negative integers); they collide with
+        # 0 and 42 under Python's hash() of an int (modulo 2**61 - 1) and under truncation to 64 bits
+        seeds += [2**61 - 1, 2**61 + 41, 2**64, 2**64 + 42]
     for rs in seeds:
         sub = {"sizes": sizes, "m": m, "k": k, "d": d, "random_state": rs, "form": case["form"]}
         rec.case(family, sub, bool(nf >= 2 and max(sizes) >= 2), key=(tuple(sizes), m, tuple(k), d, rs, case["form"]))
